@@ -468,6 +468,9 @@ struct FnDriver : DriverBase<FnDriver<Cap>> {
     {
         ctx.step = -1;
         ctx.op   = "create";
+        // every piece of state a run can read is reset here: a run is a function of its plan only
+        g_freeCount[0] = g_freeCount[1] = g_freeCount[2] = 0;
+        g_calls.clear();
         for (int s = 0; s < pool; ++s) {
             void* mem = raw(s);
             guarded(true, [&] { obj[s] = new (mem) F; });
